@@ -43,7 +43,12 @@ class Analysis:
         for t, n in enumerate(self.nets):
             for p in n["client"]:
                 ev.append((p["when"], "C", p))
-            for p in n["server"]:
+            for k, p in enumerate(n["server"]):
+                # the first packet on a transport is the answer to CONNECT: it is consumed by the
+                # handshake and never reaches the session's packet handler
+                if k == 0 and p["type"] != "CONNACK":
+                    p["handshake_garbage"] = True
+                    continue
                 ev.append((p["when"], "S", p))
         ev.sort(key=lambda x: (x[0], 0 if x[1] == "S" else 1))
         self.events = ev
@@ -131,9 +136,52 @@ def current_op_at_cancel(run):
 # C01
 # ------------------------------------------------------------------------------------------------
 
+def interleaving(run):
+    """No operation starts a packet in the middle of another one: while a queued packet is partly
+    written (state wN, N >= 1), every byte accepted by the transport must continue that packet."""
+    out = []
+    prev = None
+    for st in run.steps:
+        s = st.state
+        if s is None:
+            continue
+        if prev is not None and prev.state.live == "1" and st.net_before == st.net_after and not any(e.startswith("net ") for e in st.events):
+            k = sum(len(unhex(e.split(" ")[2])) for e in st.events if e.startswith("w "))
+            inprog = [("ret", e[0], e[2], e[3]) for e in prev.state.ret if e[3].startswith("w") and e[3] != "w0"]
+            inprog += [("rel", e[0], 5, e[2]) for e in prev.state.rel if e[2].startswith("w") and e[2] != "w0"]
+            inprog += [("ctl", (e[0], e[1], e[2]), 2 if e[0] == 12 else 5, e[3]) for e in prev.state.ctl if e[3].startswith("w") and e[3] != "w0"]
+            if len(inprog) > 1:
+                out.append(V("C01", "two-packets-in-progress", prev.state.raw, step=st.idx))
+            if k > 0 and len(inprog) == 1:
+                kind, ident, ln, state = inprog[0]
+                n0 = int(state[1:])
+                if kind == "ret":
+                    after = [e[3] for e in s.ret if e[0] == ident]
+                elif kind == "rel":
+                    after = [e[2] for e in s.rel if e[0] == ident]
+                else:
+                    after = [e[3] for e in s.ctl if (e[0], e[1], e[2]) == ident]
+                need = ln - n0
+                if after and after[0].startswith("w") and after[0] != "w0":
+                    if int(after[0][1:]) != n0 + k:
+                        out.append(V("C01", "packet-started-inside-another", f"{kind} entry {ident} was at byte {n0} of {ln}; {k} bytes were written but it is now at {after[0]}", step=st.idx))
+                elif after and after[0] in ("f", "s"):
+                    if k < need:
+                        out.append(V("C01", "packet-started-inside-another", f"{kind} entry {ident} needed {need} more bytes, {k} were written, yet it is marked {after[0]}", step=st.idx))
+                elif s.live == "0" and k < need and any(re.match(r"ret (disconnect ok|publish ok none)", e) for e in st.events):
+                    out.append(V("C01", "packet-started-inside-another", f"{kind} entry {ident} still needed {need} bytes, only {k} were written, but the operation reports its own packet sent", step=st.idx))
+        # a new transport starts every queued packet from byte 0
+        if any(e.startswith("ret connect ok") for e in st.events):
+            bad = [e for e in s.ret if e[3] != "w0"] + [e for e in s.rel if e[2] != "w0"] + [e for e in s.ctl if e[3] != "w0"]
+            if bad:
+                out.append(V("C01", "replay-not-restarted", f"after connect: {s.raw}", step=st.idx))
+        prev = st
+    return out
+
+
 def c01(run, an=None):
     an = an or Analysis(run)
-    out = []
+    out = interleaving(run)
     cancels = current_op_at_cancel(run)
     for t, n in enumerate(an.nets):
         # positions from which the stream is excluded / explained
@@ -161,12 +209,11 @@ def c01(run, an=None):
                     if len(wire) > ln:
                         taint = cand
         pkts, tail, err = n["client"], n["ctail"], n["cerr"]
+        if taint and taint[1] != "excluded":
+            out.append(V("C01", "packet-started-inside-another", f"transport {t}: bytes were written after a partially written DISCONNECT whose operation had been cancelled (wire position {taint[0]})", finding=taint[1]))
         if err:
             pos = int(err.rsplit(" ", 1)[1])
-            if taint and pos >= taint[0]:
-                if taint[1] != "excluded":
-                    out.append(V("C01", "malformed-stream", f"transport {t}: {err}", finding=taint[1]))
-            else:
+            if not (taint and pos >= taint[0]):
                 out.append(V("C01", "malformed-stream", f"transport {t}: {err}"))
         for i, p in enumerate(pkts):
             if taint and p["start"] >= taint[0]:
@@ -752,6 +799,21 @@ ENUMERATED = ("non-canonical variable byte integer", "variable byte integer long
               "invalid UTF-8 string", "variable byte integer past end of packet", "CONNACK acknowledge flags")
 
 
+def framed_exactly(data):
+    """First byte, a remaining length (any 1-4 byte form, canonical or not) and exactly that many bytes."""
+    if len(data) < 2:
+        return False
+    val = 0
+    for i in range(4):
+        if 1 + i >= len(data):
+            return False
+        b = data[1 + i]
+        val |= (b & 0x7F) << (7 * i)
+        if not b & 0x80:
+            return len(data) == 2 + i + val
+    return False
+
+
 def reference_decode(data):
     """Classify one complete buffer as the reference sees it: ('ok', description) / ('bad', reason) / ('skip', why)."""
     try:
@@ -817,6 +879,8 @@ def c08(run, an=None):
             if not dec:
                 continue
             got = dec[0][4:]
+            if not framed_exactly(data):
+                continue      # the packet reader only ever hands over exactly the declared length
             cls, info = reference_decode(data)
             if cls == "ok":
                 if info["type"] == "AUTH":
@@ -1027,11 +1091,29 @@ def compare_disconnect(req, pk, st):
 # C10
 # ------------------------------------------------------------------------------------------------
 
+def writes_prompt(run):
+    """The property's premise "on a transport that accepts writes": virtual time never advances
+    while a write or flush is pending (ticks only happen while the client waits for input)."""
+    last_io = None
+    for st in run.steps:
+        if st.op == "tick" and last_io is not None and last_io.startswith(("wp ", "fp ")):
+            return False
+        io = st.io()
+        if io:
+            last_io = io[-1]
+        if any(e.startswith("ret ") or e in ("cancel", "drop") for e in st.events):
+            last_io = None if not io or not io[-1].startswith(("wp ", "fp ")) or any(e.startswith("ret ") for e in st.events) else last_io
+    return True
+
+
 def c10(run, an=None):
-    """Checked on runs where the application stays inside poll/recv and every tick is followed by `go`
-    (the generator tags them family=keepalive); elsewhere only the dead-peer clauses are checked."""
+    """Checked on runs where the application stays inside poll/recv, every tick is followed by `go`
+    and no time passes while a write is pending (the generator tags them family=keepalive);
+    elsewhere only the dead-peer clauses are checked."""
     an = an or Analysis(run)
     out = []
+    if not writes_prompt(run):
+        return out
     strict = run.tags.get("family") == "keepalive"
     for t, n in enumerate(an.nets):
         ack = an.connack(t)
@@ -1056,7 +1138,8 @@ def c10(run, an=None):
                     break
                 for e in st.events:
                     m = re.match(r"ret (poll|recv|drive) err Disconnected @(\d+)", e)
-                    if m and not any(ev.startswith(("rz ", "re ")) for ev in st.events) and not consumed_disconnect(an, t, st.idx):
+                    was_live = st.idx > 0 and run.steps[st.idx - 1].state is not None and run.steps[st.idx - 1].state.live == "1"
+                    if m and was_live and not any(ev.startswith(("rz ", "re ", "we ", "fe ", "wz ")) for ev in st.events) and not consumed_disconnect(an, t, st.idx):
                         tm = int(m.group(2))
                         if not resp or resp[0]["when"][0] > st.idx:
                             if tm < tp + 5000000:
@@ -1161,7 +1244,7 @@ def c11(run, an=None):
             m = FATAL.match(e)
             if m and m.group(1) != "connect" and st.state is not None and st.state.live != "-":
                 dead = True
-            if e.startswith("ret disconnect ok") or e.startswith("ret disconnect err"):
+            if e.startswith("ret disconnect ok") or e.startswith("ret disconnect err Transport") or e.startswith("ret disconnect err WriteZero"):
                 if st.state is not None and st.state.live != "-":
                     dead = True
         if st.op in ("drop",) or any(e == "drop" for e in st.events):
@@ -1244,23 +1327,22 @@ def c16(run, an=None):
                     cur = None
     b = benign_start(run)
     if b is not None and run.steps and run.ended is None:
-        last = run.steps[-1]
-        s = last.state
-        if s is not None:
-            problems = []
-            if last.caps.get("qu") != "1":
-                problems.append("not quiescent")
-            if any(ch == "p" for ch in last.h):
-                problems.append(f"handles {last.h}")
-            if s.ctl:
-                problems.append(f"owed acks {s.ctl}")
-            if problems:
-                f = None
-                if any("Resource.BufferTooSmall" in e for st in run.steps[b:] for e in st.events if e.startswith("ret connect")):
-                    f = "F9"
-                elif any("Resource.PacketTooLarge" in e for st in run.steps[b:] for e in st.events if e.startswith("ret ")):
-                    f = "F14"
-                out.append(V("C16", "no-quiescence", "; ".join(problems) + f" after the benign suffix: {s.raw}", step=last.idx, finding=f))
+        # (1) blocked on input while outbound work is pending: the operation waits for the broker
+        # although it still owes bytes — nothing the broker can do will help.
+        for st in run.steps[b:]:
+            s = st.state
+            if s is None or s.live != "1" or st.op not in ("go", "poll", "recv", "d"):
+                continue
+            io = st.io()
+            if io and io[-1].startswith("rs ") and not any(e.startswith("ret ") for e in st.events):
+                stuck = [e for e in s.ret if e[3] != "s"] + [e for e in s.rel if e[2] != "s"] + [e for e in s.ctl]
+                if stuck:
+                    out.append(V("C16", "waiting-with-outbound-pending", f"blocked on read with unsent work {stuck}: {s.raw}", step=st.idx))
+                    break
+        # (2) a retained packet that can never be sent keeps every poll failing
+        toolarge = [st for st in run.steps[b:] if any(re.match(r"ret (poll|recv|drive) err Resource.PacketTooLarge", e) for e in st.events)]
+        if len(toolarge) >= 2:
+            out.append(V("C16", "no-quiescence", f"every poll fails with PacketTooLarge: a retained packet exceeds the new Maximum Packet Size: {toolarge[-1].state.raw if toolarge[-1].state else ''}", step=toolarge[-1].idx, finding="F14"))
     return out
 
 
@@ -1409,6 +1491,10 @@ def c18(run, an=None, tk=None):
                     if not any(re.match(rf"ret (poll|recv|drive) err Peer.Rejected.{norm_rc(rc):02x}", e) for e in st.events):
                         if not any(e.startswith("ret ") and " err " in e for e in st.events):
                             out.append(V("C18", "failure-not-surfaced", f"{p['type']} id {p['id']} rc {rc:#x} consumed but the result is {st.rets()}", step=st.idx))
+        inflight = set(s.ret_ids()) | set(s.rel_ids())
+        for h in handles:
+            if h["done"] is not None and h["done"] <= st.idx and h.get("gone") is None and h["id"] not in inflight:
+                h["gone"] = st.idx
         for h in handles:
             if h["k"] >= len(st.h):
                 continue
@@ -1421,7 +1507,7 @@ def c18(run, an=None, tk=None):
                 want = "p"
             if got != want:
                 f = None
-                if got == "p" and want == "c" and any(o is not h and o["kind"] == h["kind"] and o["id"] == h["id"] and o["gen"] == h["gen"] and o["done"] is None for o in handles):
+                if got == "p" and want == "c" and h.get("gone") is not None:
                     f = "F15"
                 out.append(V("C18", "status", f"handle {h['k']} ({h['kind']} id {h['id']} gen {h['gen']}) reports {got}, history says {want}", step=st.idx, finding=f))
                 break
@@ -1506,7 +1592,11 @@ def c19(run, an=None):
                         if st.op == "publish" and (a.ret_ids(), a.rel_ids(), a.q, a.gen) != (b.ret_ids(), b.rel_ids(), b.q, b.gen):
                             out.append(V("C19", "refused-request-left-trace", f"{st.directive}: {a.raw} -> {b.raw}", step=st.idx))
                 elif "err InvalidRequest" in r:
-                    out.append(V("C19", "legal-request-refused", f"{st.directive} -> {r}", step=st.idx))
+                    # a field longer than 65535 bytes cannot be encoded; that refusal is C09's
+                    if any(len(t) > 131070 for t in st.tok):
+                        pass
+                    else:
+                        out.append(V("C19", "legal-request-refused", f"{st.directive[:300]} -> {r}", step=st.idx))
                 elif st.op == "disconnect" and items and "err Resource.BufferTooSmall" in r:
                     out.append(V("C19", "legal-request-refused", f"{st.directive} -> {r}", step=st.idx, finding="F11"))
         if st.state is not None:
